@@ -38,7 +38,8 @@ func mods(m []string) lang.SemanticTokenModifiers {
 	if m == nil {
 		return nil
 	}
-	out := make(lang.SemanticTokenModifiers, len(m))
+	// (spare capacity: an append to a caller-supplied slice must not write into the caller's array)
+	out := make(lang.SemanticTokenModifiers, len(m), len(m)+2)
 	for i, s := range m {
 		out[i] = lang.SemanticTokenModifier(s)
 	}
@@ -49,7 +50,7 @@ func buildSteps(steps []StepM) schema.Address {
 	if steps == nil {
 		return nil
 	}
-	out := make(schema.Address, 0, len(steps))
+	out := make(schema.Address, 0, len(steps)+2) // (spare capacity, see mods)
 	for _, s := range steps {
 		switch s.K {
 		case "static":
@@ -104,7 +105,7 @@ func (c ConsM) Build() schema.Constraint {
 		}
 		return l
 	case "tuple":
-		t := schema.Tuple{Description: md(c.Desc)}
+		t := schema.Tuple{Description: md(c.Desc), Elems: make([]schema.Constraint, 0, len(c.Elems)+2)}
 		for _, e := range c.Elems {
 			t.Elems = append(t.Elems, e.Build())
 		}
@@ -119,7 +120,7 @@ func (c ConsM) Build() schema.Constraint {
 		}
 		return o
 	case "oneof":
-		o := make(schema.OneOf, 0, len(c.Elems))
+		o := make(schema.OneOf, 0, len(c.Elems)+2) // (spare capacity, see mods)
 		for _, e := range c.Elems {
 			o = append(o, e.Build())
 		}
@@ -164,7 +165,7 @@ func (a AttrM) Build() *schema.AttributeSchema {
 		}
 	}
 	if a.Hooks != nil {
-		as.CompletionHooks = make(lang.CompletionHooks, len(a.Hooks))
+		as.CompletionHooks = make(lang.CompletionHooks, len(a.Hooks), len(a.Hooks)+2)
 		for i, h := range a.Hooks {
 			as.CompletionHooks[i] = lang.CompletionHook{Name: h}
 		}
@@ -225,7 +226,7 @@ func (b BlockM) Build() *schema.BlockSchema {
 		MaxItems:               b.Max,
 	}
 	if b.Labels != nil {
-		bs.Labels = make([]*schema.LabelSchema, len(b.Labels))
+		bs.Labels = make([]*schema.LabelSchema, len(b.Labels), len(b.Labels)+2)
 		for i, l := range b.Labels {
 			bs.Labels[i] = l.Build()
 		}
@@ -315,7 +316,7 @@ func (b BodyM) Build() *schema.BodySchema {
 		}
 	}
 	if b.TargetableAs != nil {
-		bs.TargetableAs = make(schema.Targetables, len(b.TargetableAs))
+		bs.TargetableAs = make(schema.Targetables, len(b.TargetableAs), len(b.TargetableAs)+2)
 		for i, t := range b.TargetableAs {
 			bs.TargetableAs[i] = t.Build()
 		}
@@ -327,7 +328,7 @@ func (b BodyM) Build() *schema.BodySchema {
 		bs.Targets = &schema.Target{Path: lang.Path{Path: b.Targets.Path}, Range: b.Targets.Range.HCL()}
 	}
 	if b.Implied != nil {
-		bs.ImpliedOrigins = make(schema.ImpliedOrigins, len(b.Implied))
+		bs.ImpliedOrigins = make(schema.ImpliedOrigins, len(b.Implied), len(b.Implied)+2)
 		for i, im := range b.Implied {
 			bs.ImpliedOrigins[i] = schema.ImpliedOrigin{
 				OriginAddress: ParseAddr(im.Origin),
